@@ -335,3 +335,44 @@ def parents_descending(prog: Program, call: ast.Call) -> Optional[bool]:
     if "-" in key:
         rev = not rev
     return rev
+
+
+def g6_lookup_by_short_name(prog: Program, run: Run, rule: str, patterns: Sequence[str]) -> int:
+    """A NamedItemList is keyed by the *mangled* attribute name (`_`-prefixed for keywords and
+    leading digits, `_2` for duplicates, names of list methods are shadowed): looking an item up
+    with somebody's raw short_name (`lst.get(x.short_name)`, `lst[x.short_name]`,
+    `getattr(lst, x.short_name)`) misses exactly those items. Equality of short names needs a
+    scan."""
+    n = 0
+    for f in prog.iter_functions():
+        if not in_scope(f.module.rel, patterns):
+            continue
+        env = None
+        for x in walk_no_nested(f.node):
+            recv = arg = None
+            kind = ""
+            if isinstance(x, ast.Call) and isinstance(x.func, ast.Attribute) and \
+                    x.func.attr == "get" and x.args:
+                recv, arg, kind = x.func.value, x.args[0], ".get()"
+            elif isinstance(x, ast.Subscript) and not isinstance(x.slice, ast.Slice):
+                recv, arg, kind = x.value, x.slice, "[...]"
+            elif isinstance(x, ast.Call) and isinstance(x.func, ast.Name) and \
+                    x.func.id == "getattr" and len(x.args) >= 2:
+                recv, arg, kind = x.args[0], x.args[1], "getattr()"
+            if recv is None or arg is None:
+                continue
+            n += 1
+            if "short_name" not in ast.unparse(arg):
+                continue
+            env = env or TypeEnv(prog, f)
+            t = env.type_of(recv)
+            if t is not None and t[0] == "list":
+                run.violation(rule, f"{f.module.rel}:{f.qual}", "lookup-by-raw-short-name",
+                              f"`{' '.join(ast.unparse(x).split())[:90]}` looks an item of a "
+                              f"NamedItemList up by a raw short name ({kind}); the list is keyed "
+                              "by the mangled name, so items whose short name is a Python "
+                              "keyword, starts with a digit, equals a list method or is a "
+                              "duplicate are not found", f"{f.module.rel}:{x.lineno}")
+    run.ok(rule, "package", f"{n} keyed lookups examined, none uses a raw short name on a "
+           "NamedItemList", "odxtools/")
+    return n
